@@ -990,7 +990,26 @@ def _run_case(spec):
         for cl, det in found:
             if cl in ("facet_multiplicity", "orphan_vertex", "volume_overlap", "volume_hole", "delaunay"):
                 # which documented mechanism, if any, explains the broken tiling?  (each verified with exact arithmetic)
-                if audit.hole_facet_total:
+                orphaned_by_band = None
+                if cl == "orphan_vertex" and audit.band and not spec.get("exact_incircle"):
+                    # a vertex loses ALL its simplices only if every simplex of its star was answered "inside"; with exact answers
+                    # that is impossible for a Delaunay star (every point of a set is a vertex of its Delaunay triangulation).
+                    # Confirmed on this very insertion: a simplex of the orphan's star was deleted although the new point lies
+                    # strictly OUTSIDE its circumsphere (exact test), inside the relative 1e-8 band of point_in_cicumcircle
+                    try:
+                        v = int(det.split()[1])
+                        star = [(sx, r) for sx, r in audit.band if v in sx]
+                        if star:
+                            orphaned_by_band = star
+                    except (ValueError, IndexError):
+                        pass
+                if orphaned_by_band:
+                    cl = "tiling:incircle_decided_by_eps"
+                    det += (f"; in this insertion {len(orphaned_by_band)} simplex(es) of that vertex's star were deleted although the new point "
+                            f"lies strictly outside their circumsphere (exact test: |c-p|/r - 1 = "
+                            f"{', '.join(f'{r:.2e}' for _, r in orphaned_by_band[:4])} for {[tuple(map(int, sx)) for sx, _ in orphaned_by_band[:4]]}), "
+                            f"inside the relative 1e-8 band of point_in_cicumcircle: with exact answers the star survives")
+                elif audit.hole_facet_total:
                     cl = "tiling:hole_facet_extended_as_hull_facet"
                     det += (f"; up to here _extend_hull extended {audit.hole_facet_total} facet(s) that belong to one simplex only but are "
                             f"NOT on the convex hull: they bound a hole left inside the triangulation by a simplex skipped as almost flat "
